@@ -89,6 +89,46 @@ def r17_3(ctx):
                        b.text_at(b.term_loc(bb2))[:60], src[0][1].split("::")[-1]))
     if nf == 0:
         ctx.ob("read_from_gui:content-cannot-panic", True, b.file, "no unwrap/expect in read_from_gui takes the result of a decoding step (read_line, from_utf8, ..): %d found" % nf, nontrivial=False)
+    # the read *appends* to the buffer it is given (read_line / read_until both do): the buffer must be
+    # empty at the call, otherwise a line is answered together with what an earlier call left behind -
+    # a fresh local buffer per call, or a buffer of the caller that every returning path clears again
+    from wa.mir import operand_alias, alias_of
+    FRESH = ("::new", "::with_capacity", "::default")
+    for bb, t in rl:
+        al = operand_alias(b, t["args"][-1]) if t["args"] else None
+        where = b.where(b.term_loc(bb))
+        key = "read_from_gui:appending-read-starts-empty"
+        if al and al[1] == "ref" and not al[2] and al[0] > b.arg_count:
+            R = al[0]
+            defs = []
+            for bb2, t2 in b.iter_calls():
+                d2 = t2["dest"]
+                if d2["local"] == R and not d2["proj"]:
+                    defs.append((bb2, callee_of(t2) or ""))
+            for loc, st in b.iter_stmts():
+                if st["k"] == "assign" and st["place"]["local"] == R and not st["place"]["proj"]:
+                    defs.append((loc[0], "<assignment>"))
+            fresh = bool(defs) and all(any(c.endswith(x) or (x + "(") in c for x in FRESH) for _b, c in defs) and all(b.node_dominates(db, bb) for db, _c in defs)
+            in_loops = [h for _x, h in b.back_edges() if bb in b.natural_loop(h)]
+            if fresh and in_loops:
+                fresh = all(any(db in b.natural_loop(h) for db, _c in defs) for h in in_loops)
+            ctx.ob(key, fresh, where, "the line is read into `%s`, %s" % (b.lname(R), "created empty in this call before the read" if fresh else
+                   "which is not a buffer created empty before this read on every path (%s): an appending read returns the earlier content with the new line" % [c for _b, c in defs]))
+        elif al and al[1] == "val" and al[0] <= b.arg_count:
+            P = al[0]
+            clears = set()
+            for bb2, t2 in b.iter_calls():
+                c2 = callee_of(t2) or ""
+                if (c2.endswith("::clear") or c2.endswith("::truncate")) and t2["args"]:
+                    a2 = operand_alias(b, t2["args"][0])
+                    if a2 and a2[0] == P:
+                        clears.add(bb2)
+            stale = [r for r in b.return_blocks() if b.reaches(bb, r, removed_nodes=clears)]
+            ctx.ob(key, not stale, b.where(b.term_loc(stale[0])) if stale else where,
+                   "the line is read into the caller's buffer `%s`; %s" % (b.lname(P), "every returning path clears it again" if not stale else
+                   "a path from the read to this return does not clear it: the bytes of that line stay in front of every later line (one undecodable line and no further command is ever recognised)"))
+        else:
+            ctx.ob(key, False, where, "cannot tell which buffer the appending read fills", reason="shape-not-recognised")
     for bb, t in rl:
         call = ex.call_expr(t, b.term_loc(bb))
         # a failed read is not a command: the Err outcome must end the process (as `unwrap` does), not hand
